@@ -11,6 +11,17 @@ package main
 //           more after flipping IgnoreDeviateNotSupported, next to the answers of fresh sets with either option value
 //           (answer = error list, or "tree:" + hash of the Print rendering)
 //
+// C05: c05hist <opts> <pathspec> <ops> <n> (<namehex> <texthex>){n}
+//
+// A history over one Modules value, then the dump of the LAST Process (same dump as `process`).
+//   pathspec  "-": the texts are only in memory (ops L).  Otherwise the n texts are written below a fresh directory
+//             ROOT under their names (relative paths) and pathspec = ';'-separated search path entries relative to
+//             ROOT ("." = ROOT itself), an entry ending in "+" stands for dir/... (the whole tree below dir)
+//   ops       ','-separated: L<i> = Parse(text i, name i); R<hex> = Read(<module or file name>), found through the
+//             search path; P = Process; G<hex> = GetModule(<name>) (what tools call per module: it runs Process)
+// Output JSON: loads (ok/err per L and R), run (dump of the last P), sources (key of ms.Modules/ms.SubModules ->
+// file of the module statement, relative to ROOT).  ROOT is replaced by the text ROOT everywhere.
+//
 // C05: errsort <hex> <hex> ...   (one token per error text, "-" = the empty text, no token = no error)
 //
 // errorSort is unexported; it is reached through (*Entry).GetErrors() on an entry whose Errors field holds
@@ -19,6 +30,8 @@ package main
 
 import (
 	"bytes"
+	"os"
+	"path/filepath"
 	"crypto/sha1"
 	"encoding/json"
 	"errors"
@@ -209,3 +222,106 @@ func init() {
 		return string(b)
 	}
 }
+
+type c05HistOut struct {
+	Loads   []string          `json:"loads"`
+	Run     *runDump          `json:"run"`
+	Sources map[string]string `json:"sources"`
+}
+
+func c05Hist(toks []string) string {
+	opts, pathspec, ops := toks[0], toks[1], toks[2]
+	n, _ := strconv.Atoi(toks[3])
+	names, texts := make([]string, n), make([]string, n)
+	for i := 0; i < n; i++ {
+		names[i], texts[i] = string(unhex(toks[4+2*i])), string(unhex(toks[5+2*i]))
+	}
+	ms := yang.NewModules()
+	ms.ParseOptions.IgnoreSubmoduleCircularDependencies = strings.Contains(opts, "c")
+	ms.ParseOptions.DeviateOptions.IgnoreDeviateNotSupported = strings.Contains(opts, "n")
+	root := ""
+	if pathspec != "-" {
+		d, err := os.MkdirTemp("", "c05tree")
+		if err != nil {
+			return "BROKEN tempdir: " + err.Error()
+		}
+		root = d
+		defer os.RemoveAll(root)
+		for i := range names {
+			p := filepath.Join(root, filepath.FromSlash(names[i]))
+			if err := os.MkdirAll(filepath.Dir(p), 0o755); err != nil {
+				return "BROKEN mkdir: " + err.Error()
+			}
+			if err := os.WriteFile(p, []byte(texts[i]), 0o644); err != nil {
+				return "BROKEN write: " + err.Error()
+			}
+		}
+		for _, e := range strings.Split(pathspec, ";") {
+			dots := strings.HasSuffix(e, "+")
+			d := filepath.Join(root, filepath.FromSlash(strings.TrimSuffix(e, "+")))
+			if dots {
+				d += "/..."
+			}
+			ms.AddPath(d)
+		}
+	}
+	out := &c05HistOut{Loads: []string{}, Sources: map[string]string{}}
+	status := func(err error) {
+		if err != nil {
+			out.Loads = append(out.Loads, "err: "+strings.SplitN(err.Error(), "\n", 2)[0])
+		} else {
+			out.Loads = append(out.Loads, "ok")
+		}
+	}
+	for _, op := range strings.Split(ops, ",") {
+		switch {
+		case op == "P":
+			run := &runDump{Errors: []string{}, ErrPos: []string{}, TreeViol: []string{}, FindViol: []string{}}
+			errs := ms.Process()
+			for _, e := range errs {
+				s := e.Error()
+				if root != "" {
+					s = strings.ReplaceAll(s, root, "ROOT")
+				}
+				run.Errors = append(run.Errors, s)
+				if m := posRE.FindStringSubmatch(s); m != nil {
+					run.ErrPos = append(run.ErrPos, m[1]+":"+m[2]+":"+m[3])
+				} else {
+					run.ErrPos = append(run.ErrPos, "")
+				}
+			}
+			if len(errs) == 0 {
+				dumpModules(ms, run, false)
+			}
+			out.Run = run
+		case strings.HasPrefix(op, "L"):
+			i, _ := strconv.Atoi(op[1:])
+			status(ms.Parse(texts[i], names[i]))
+		case strings.HasPrefix(op, "R"):
+			status(ms.Read(string(unhex(op[1:]))))
+		case strings.HasPrefix(op, "G"):
+			ms.GetModule(string(unhex(op[1:])))
+		}
+	}
+	for _, mm := range []map[string]*yang.Module{ms.Modules, ms.SubModules} {
+		for k, m := range mm {
+			src := yang.Source(m)
+			if i := strings.Index(src, ".yang:"); i >= 0 {
+				src = src[:i+5]
+			}
+			out.Sources[k] = src
+		}
+	}
+	b, err := json.Marshal(out)
+	if err != nil {
+		return "BROKEN json: " + err.Error()
+	}
+	r := string(b)
+	if root != "" {
+		r = strings.ReplaceAll(r, root+"/", "")
+		r = strings.ReplaceAll(r, root, "ROOT")
+	}
+	return r
+}
+
+func init() { handlers["c05hist"] = c05Hist }
